@@ -375,12 +375,13 @@ def reuse_history(seed, parameter):
               alpha=rng.choice([0.01, 0.05, 0.1]))
     if kw["alternative"] == "two-sided" and parameter != "analyze":
         kw["use_t"] = False     # scipy's nct returns NaN in the far lower tail (known findings C08 / C09)
+    sgn = -1 if kw["alternative"] == "less" else 1     # an effect against the alternative has no solution for n_obs
     if parameter == "power":
-        kw.update(rel_effect_size=0.05, n_obs=(500, 2000))
+        kw.update(rel_effect_size=sgn * 0.05, n_obs=(500, 2000))
     elif parameter in ("effect_size", "rel_effect_size"):
         kw.update(n_obs=(500, 2000))
     elif parameter == "n_obs":
-        kw.update(rel_effect_size=(0.05, 0.1))
+        kw.update(rel_effect_size=(sgn * 0.05, sgn * 0.1))
     fresh = lambda: tt.Mean("x", covariate=cov, **kw)
     metric = fresh()
     exp = tt.Experiment(m=metric)
@@ -415,8 +416,8 @@ def reuse_history(seed, parameter):
                 got = call(metric, exp, cur, via_exp)
                 want = call(fresh(), tt.Experiment(m=fresh()), cur.copy(deep=True), via_exp)
             except Exception as e:  # noqa: BLE001
-                if "is NaN" in str(e) or "nct" in str(e):
-                    continue
+                if "is NaN" in str(e) or "nct" in str(e) or "Cannot find parameter boundaries" in str(e):
+                    continue        # solver limits (C09 known findings / unreachable targets), not a matter of object reuse
                 fails.append(f"step {step}: {type(e).__name__}: {e}")
                 continue
             if got != want:
